@@ -45,7 +45,7 @@ ASSUME Need(\E k \in 1..Len(Fams) : Fams[k].v # 0 /\ Types[Fams[k].t].k = "bits"
        /\ Need(\E k \in 1..Len(Fams) : Fams[k].v # 0 /\ Types[Fams[k].t].bits = 16, "list on 16 bit")
 ASSUME PrintT(<<"VF", "FAMILIES", Len(Fams)>>)
 
-VARIABLE i
-Init == i = 0
-Next == UNCHANGED i
+VARIABLE dummy
+Init == dummy = 0
+Next == UNCHANGED dummy
 =============================================================================
